@@ -308,40 +308,46 @@ def real_project(Pj, **attrs):
     for k, v in attrs.items():
         setattr(s, k, v)
     return s
-ParentAt = z3.Function('root_holds_the_parent_package_or_module', Int, z3.BoolSort())
+EXISTS_IN_PARENT = z3.Function('candidate_exists_in_the_search_path_of_the_parent', Int, Int, z3.BoolSort())
+
+
+def exists_fn(tag):
+    return _EXISTS[0] if tag == 'roots' else EXISTS_IN_PARENT
 
 
 class RootList(Proxy):
+    """a list of directories of symbolic length: the roots of the project (`roots`) or the search path of a parent package (`parent`)"""
     _pyclass = list
 
-    def __init__(self):
-        self.n = z3.Int('n_roots')
+    def __init__(self, tag='roots'):
+        self.tag = tag
+        self.n = z3.Int('n_' + tag)
 
     def slen(self):
         return SInt(self.n)
 
     def elem_at(self, k):
-        return RootP(k)
+        return RootP(k, self.tag)
 
 
 class RootP(Proxy):
     _pyclass = str
 
-    def __init__(self, r):
-        self.r = r
+    def __init__(self, r, tag='roots'):
+        self.r, self.tag = r, tag
 
 
 class CandP(Proxy):
-    """<root r>/<name as path><suffix>  or  <root r>/<name as path>/__init__.py"""
+    """<directory r of the list `tag`>/<parts as path><suffix>  or  <directory r>/<parts as path>/__init__.py"""
     _pyclass = str
 
-    def __init__(self, r, kind=None):
-        self.r, self.kind = r, kind
+    def __init__(self, r, kind=None, tag='roots', parts=None):
+        self.r, self.kind, self.tag, self.parts = r, kind, tag, parts
 
     def __add__(self, s):
         if self.kind is not None or type(s) is not str:
             raise EngineEscape('path + %r' % (s,))
-        return CandP(self.r, ('suffix', s))
+        return CandP(self.r, ('suffix', s), self.tag, self.parts)
 
     def __bool__(self):
         return True
@@ -352,9 +358,9 @@ def fs_stub(suffixes):
         @staticmethod
         def join(p, *parts):
             if isinstance(p, RootP):
-                return CandP(p.r)
+                return CandP(p.r, None, p.tag, tuple(str(x) for x in parts))
             if isinstance(p, CandP) and p.kind is None and parts == ('__init__.py',):
-                return CandP(p.r, ('package', '__init__.py'))
+                return CandP(p.r, ('package', '__init__.py'), p.tag, p.parts)
             raise EngineEscape('join(%r, %r)' % (p, parts))
 
         @staticmethod
@@ -362,7 +368,7 @@ def fs_stub(suffixes):
             core.RUN.trust(T_FS)
             if isinstance(p, CandP) and p.kind is not None:
                 c = suffixes.index(p.kind[1]) if p.kind[0] == 'suffix' else len(suffixes)
-                return core.CUR.branch(Exists(p.r, z3.IntVal(c)))
+                return core.CUR.branch(exists_fn(p.tag)(p.r, z3.IntVal(c)))
             raise EngineEscape('exists(%r)' % (p,))
 
     class O(object):
@@ -421,26 +427,30 @@ finally:
 
 @harness(['C07', 'C09'], 'supp.project.Project.get_module', twins=('spec-last-root-wins',))
 def get_module(run, twin=None):
-    """cache miss: the module analysed is the file importlib's path finder would load: the FIRST root (source roots, then sys.path, in
-    order; any number of roots) that holds a candidate for the name - a file with one of importlib's suffixes or a package
-    directory - source files are analysed as source, anything else (or a name declared dynamic) is imported; ImportError exactly when
-    no root holds a candidate and the name is not already loaded.  requires: a root holds at most one candidate for the name (the
-    property's domain).  Loop invariant: no candidate in the roots before k and nothing chosen yet.
-    cache hits: the per-request cache first, then the module cache unless the module's file changed"""
+    """cache miss: the module analysed is the file importlib's path finder would load.  A top-level name is searched in the roots (source
+    roots, then sys.path, in order; any number of roots): the FIRST root that holds a candidate - a file with one of importlib's suffixes
+    or a package directory.  A dotted name is searched only inside the parent the import system resolves first (the recursive call is
+    replaced by its contract: it raises ImportError, or returns a module with a search path - empty for a plain module): the first
+    directory of the parent's search path that holds a candidate for the LAST component; where no parent module exists the name is
+    searched under every root like a namespace package.  Source files are analysed as source, anything else (or a name declared dynamic)
+    is imported; ImportError exactly when the searched directories hold no candidate and the name is not already loaded.  requires: a
+    directory holds at most one candidate for the name (the property's domain).  Loop invariant: no candidate in the directories before
+    k and nothing chosen yet.  cache hits: the per-request cache first, then the module cache unless the module's file changed"""
     import supp.project as Pj
     run.trust(T_FS)
     run.concretise = lambda model, ob: ({'input': 'roots [r2, r1] with r2/clash.py and r1/clash/inner.py', 'script': PARENT_REPLAY % {'repo': core.REPO}}
-                                        if 'holds-the-parent' in ob.name else
+                                        if 'parent' in ob.name else
                                         {'input': 'two roots holding a package and a module of one name, both orders', 'script': GETMOD_REPLAY % {'repo': core.REPO}})
     SUF = list(Pj.SUFFIXES)
     NC = len(SUF) + 1
-    roots = RootList()
+    roots, ppath = RootList('roots'), RootList('parent')
     loaded, dyn = z3.Bool('name_in_sys_modules'), z3.Bool('name_is_dynamic')
     holder = {}
 
-    def none_before(k):
+    def none_before(k, tag=None):
+        E = exists_fn(tag or holder['tag'])
         r, c = z3.Int('ir'), z3.Int('ic')
-        return z3.ForAll([r, c], z3.Implies(z3.And(r >= 0, r < k, c >= 0, c < NC), z3.Not(Exists(r, c))))
+        return z3.ForAll([r, c], z3.Implies(z3.And(r >= 0, r < k, c >= 0, c < NC), z3.Not(E(r, c))))
 
     def inv(L, st):
         return z3.And(z3.BoolVal(st['filename'] is None), none_before(L.k))
@@ -478,8 +488,9 @@ def get_module(run, twin=None):
         modules = SymIn(loaded)
         path = []
 
-    class Name(str):
-        """the module name: an arbitrary dotted name (the function only splits it into path components and uses it as a key)"""
+    class ParentModule(object):
+        """what the recursive call returns: a module whose search path is a list of directories of any length (none for a plain module)"""
+        search_path = ppath
 
     imported = []
     f = loader.load('supp.project', 'Project.get_module',
@@ -487,31 +498,42 @@ def get_module(run, twin=None):
                            'ImportedModule': lambda m: ('imported', m), 'SourceModule': lambda proj, n, fn: ('source', fn)},
                     cuts={0: LoopSpec(inv, hav, temps=('p', 'mpath', 's', 'fname'))},
                     builtins_extra={'__import__': lambda n, *a: imported.append(n)})
+    CASES = ('top-level-name', 'dotted-name-without-a-parent-module', 'dotted-name-inside-its-parent')
 
     def body():
-        assume(roots.n >= 0)
+        case = core.choice(3)
+        assume(z3.And(roots.n >= 0, ppath.n >= 0))
         r, c1, c2 = z3.Int('ur'), z3.Int('uc1'), z3.Int('uc2')
-        # domain: at most one candidate per root
-        axiom(z3.ForAll([r, c1, c2], z3.Implies(z3.And(Exists(r, c1), Exists(r, c2), c1 >= 0, c1 < NC, c2 >= 0, c2 < NC), c1 == c2)))
-        # domain: no namespace packages - a root that holds pkg/mod.* holds the package pkg
-        axiom(z3.ForAll([r, c1], z3.Implies(z3.And(Exists(r, c1), c1 >= 0, c1 < NC), ParentAt(r))))
-        name = Name('pkg.mod')
+        # domain: at most one candidate per directory
+        for E in (exists_fn('roots'), exists_fn('parent')):
+            axiom(z3.ForAll([r, c1, c2], z3.Implies(z3.And(E(r, c1), E(r, c2), c1 >= 0, c1 < NC, c2 >= 0, c2 < NC), c1 == c2)))
+        name = 'mod' if case == 0 else 'top.pkg.mod'
+        asked = []
 
-        s = real_project(Pj, _context_cache={}, _module_cache={}, dyn_modules=SymIn(dyn), get_path=lambda: roots)
-        holder.update(s=s, name=name)
+        def parent_contract(n):
+            asked.append(n)
+            if case == 1:
+                raise ImportError(n)
+            return ParentModule()
+        s = real_project(Pj, _context_cache={}, _module_cache={}, dyn_modules=SymIn(dyn), get_path=lambda: roots, get_module=parent_contract)
+        holder.update(s=s, name=name, case=case, asked=asked, tag='parent' if case == 2 else 'roots',
+                      parts=('mod',) if case in (0, 2) else ('top', 'pkg', 'mod'))
         del imported[:]
         return f(s, name)
 
     def on_path(p, out):
-        s, name = holder['s'], holder['name']
-        r, c = z3.Int('fr'), z3.Int('fc')
-        nothing = none_before(roots.n)
+        s, name, case, tag = holder['s'], holder['name'], holder['case'], holder['tag']
+        run.case = CASES[case]
+        lst = ppath if case == 2 else roots
+        nothing = none_before(lst.n)
+        prove('parent-resolved-first', holder['asked'] == ([] if case == 0 else ['top.pkg']),
+              clause='a dotted name asks (once) for the module named by all but its last component; a top-level name asks for none [%r]' % (holder['asked'],), path=p)
         if out[0] == 'exc':
             if isinstance(out[1], ImportError):
                 prove('importerror-iff-nothing-found-and-not-loaded', z3.And(nothing, z3.Not(loaded)),
-                      clause='ImportError exactly when no root holds a candidate and the name is not already loaded', path=p)
+                      clause='ImportError exactly when no searched directory holds a candidate and the name is not already loaded', path=p)
             else:
-                prove('no-other-exception(%s)' % type(out[1]).__name__, False, path=p)
+                prove('no-other-exception(%s)' % type(out[1]).__name__, False, clause='[%r]' % (out[1],), path=p)
             return
         m = out[1]
         prove('module-cached', s._module_cache.get(name) is m, clause='the module is kept in the module cache', path=p)
@@ -521,17 +543,19 @@ def get_module(run, twin=None):
             if not ok:
                 prove('analysed-file-is-a-candidate', False, path=p)
                 return
+            if core.RUN.prop == 'C07' or fn.tag == tag:        # agreement with importlib is C07's clause; C09 compares with a fresh project only
+                prove('searched-only-inside-the-resolved-parent', fn.tag == tag and fn.parts == holder['parts'],
+                      clause='importlib searches a dotted name only inside the parent it resolved first, for the last component: never under '
+                             'another root [searched %r in the %s]' % (fn.parts, 'search path of the parent' if fn.tag == 'parent' else 'roots'), path=p)
+            if fn.tag != tag:
+                return
             ci = SUF.index(fn.kind[1]) if fn.kind[0] == 'suffix' else len(SUF)
-            first = z3.And(Exists(fn.r, z3.IntVal(ci)), fn.r >= 0, fn.r < roots.n, none_before(fn.r))
+            E = exists_fn(tag)
+            first = z3.And(E(fn.r, z3.IntVal(ci)), fn.r >= 0, fn.r < lst.n, none_before(fn.r))
             if twin:
                 r2, c2 = z3.Int('lr'), z3.Int('lc')
-                first = z3.And(Exists(fn.r, z3.IntVal(ci)), z3.ForAll([r2, c2], z3.Implies(z3.And(r2 > fn.r, r2 < roots.n, c2 >= 0, c2 < NC), z3.Not(Exists(r2, c2)))))
-            prove('first-root-with-a-candidate', first, clause='the file analysed is the candidate of the first root that has one', path=p)
-            r3 = z3.Int('pr')
-            if core.RUN.prop == 'C07':        # agreement with importlib is C07's clause; C09 compares with a fresh project only
-                prove('no-earlier-root-holds-the-parent', z3.ForAll([r3], z3.Implies(z3.And(r3 >= 0, r3 < fn.r), z3.Not(ParentAt(r3)))),
-                      clause='importlib searches a dotted name only inside the parent it resolved first: no earlier root may hold the parent '
-                             '(as a module, or as a package without this child)', path=p)
+                first = z3.And(E(fn.r, z3.IntVal(ci)), z3.ForAll([r2, c2], z3.Implies(z3.And(r2 > fn.r, r2 < lst.n, c2 >= 0, c2 < NC), z3.Not(E(r2, c2)))))
+            prove('first-directory-with-a-candidate', first, clause='the file analysed is the candidate of the first searched directory that has one', path=p)
             prove('source-candidates-are-analysed-as-source', z3.And(z3.BoolVal(fn.kind[1] in ('.py', '__init__.py')), z3.Not(dyn)),
                   clause='only .py files / package __init__.py of non-dynamic names are analysed as source', path=p)
         elif m[0] == 'imported':
@@ -542,71 +566,26 @@ def get_module(run, twin=None):
         else:
             prove('module-kind', False, path=p)
     core.explore(body, on_path)
+    run.case = None
 
-    # cache branches (C09)
-    def cache_paths(path):
-        for changed in (False, True):
-            run.case = 'module-cache-%s' % ('changed' if changed else 'unchanged')
+    # the search path the recursive call's contract speaks of: what the two module classes answer
+    def ground(path):
+        import supp.module as Md
+        import types
 
-            class M(object):
-                pass
-            m = M()
-            m.changed = changed
-
-            s = real_project(Pj, _context_cache={}, _module_cache={'n': m}, dyn_modules=set(), get_path=lambda: [])
-            fr = loader.load('supp.project', 'Project.get_module', stubs={'sys': type('S', (), {'modules': {}, 'path': []})})
-            try:
-                r = fr(s, 'n')
-            except ImportError:
-                r = 'ImportError'
-            if changed:
-                prove('changed-module-is-dropped-and-looked-up-again', r == 'ImportError' and 'n' not in s._module_cache and 'n' not in s._context_cache,
-                      clause='a module whose file changed is dropped from the cache and resolved afresh', path=path)
-            else:
-                prove('unchanged-module-served-and-pinned-for-the-request', r is m and s._context_cache == {'n': m}, path=path)
-        run.case = 'context-cache'
-        sentinel = object()
-
-        fr = loader.load('supp.project', 'Project.get_module')
-        prove('per-request-cache-first', fr(real_project(Pj, _context_cache={'n': sentinel}, _module_cache={}), 'n') is sentinel, clause='within one change-checking context a module is looked up once', path=path)
-        run.case = None
-    core.explore(lambda: None, lambda p, out: cache_paths(p))
-
-
-# ---------------------------------------------------------------------------
-# C09: cache transparency.  Ghost state: deps(m) = the modules whose analysis m's analysis consulted (star imports copied at extraction,
-# ImportedName._ref memoised inside m's scope); valid(m) <=> m's cached analysis equals a fresh one
-#   valid(m)  <=  not changed(m)  and  every d in deps(m) is valid  and  no name that failed to resolve for m resolves now
-# (dependency-closure lemma, justified by the frame scan: the only file-system reads are in project.py / module.py, the only cross-module
-# references are created by get_nmodule).
-
-STALE_REPLAY = '''import sys, os, time, tempfile, shutil; sys.path.insert(0, %(repo)r)
-from supp.assistant import assist
-from supp.project import Project
-d = tempfile.mkdtemp(prefix='supp-c09-')
-try:
-    def write(name, text, t):
-        p = os.path.join(d, name); open(p, 'w').write(text); os.utime(p, (t, t))
-    write('c.py', 'cname1 = 1\\n', 1000)
-    write('b.py', 'from c import *\\n', 1000)
-    main = 'import b\\nb.\\n'
-    p = Project([d])
-    with p.check_changes():
-        first = assist(p, main, (2, 2), os.path.join(d, 'main.py'))[1]
-    write('c.py', 'cname2 = 1\\n', 2000)                    # only c changes; b.py (which star-imports it) does not
-    with p.check_changes():
-        cached = assist(p, main, (2, 2), os.path.join(d, 'main.py'))[1]
-    with Project([d]).check_changes():
-        pass
-    fresh_p = Project([d])
-    with fresh_p.check_changes():
-        fresh = assist(fresh_p, main, (2, 2), os.path.join(d, 'main.py'))[1]
-    if cached != fresh:
-        print('REPRODUCED: history create b (from c import *), c; request; rewrite c; request: long-lived project offers %%r, a fresh one %%r' %% (cached, fresh)); sys.exit(1)
-    print('not reproduced')
-finally:
-    shutil.rmtree(d, ignore_errors=True)
-'''
+        def sp(m):
+            return getattr(m, 'search_path', '<no search_path>')
+        sm = loader.bare_instance(Md.SourceModule, filename='/r/pkg/__init__.py')
+        prove('search_path:package-is-its-directory', sp(sm) == ['/r/pkg'], clause='[%r]' % (sp(sm),), path=path)
+        sm = loader.bare_instance(Md.SourceModule, filename='/r/pkg/mod.py')
+        prove('search_path:plain-module-has-none', sp(sm) == [], clause='a module that is not a package holds no submodules [%r]' % (sp(sm),), path=path)
+        sm = loader.bare_instance(Md.SourceModule, filename='/r/pkg/my__init__.py')
+        prove('search_path:only-__init__.py-makes-a-package', sp(sm) == [], clause='[%r]' % (sp(sm),), path=path)
+        pk = types.ModuleType('rt_pkg')
+        pk.__path__ = ['/a/rt_pkg', '/b/rt_pkg']
+        prove('search_path:runtime-package-is-its-__path__', sp(Md.ImportedModule(pk)) == ['/a/rt_pkg', '/b/rt_pkg'], path=path)
+        prove('search_path:runtime-module-has-none', sp(Md.ImportedModule(types.ModuleType('rt_mod'))) == [], path=path)
+    core.explore(lambda: None, lambda p, out: ground(p))
 
 
 HISTORY_REPLAY = '''import sys, os, tempfile, shutil; sys.path.insert(0, %(repo)r)
